@@ -197,7 +197,7 @@ def run(tier):
             items.append((name, rows))
         for k in range(0, len(items), 20):
             tasks.append((d, items[k : k + 20]))
-    dev_dates = dates if thorough else dates[2:3]
+    dev_dates = dates[1::8] if thorough else dates[2:3]
     for d in dev_dates:
         year = int(d[:4])
         for name in popgen.LIBRARY:
